@@ -1299,8 +1299,10 @@ fn cipher_of(name: Option<&Vec<u8>>, cf: Option<&Dictionary>, v: i64) -> Result<
         Some(b"V2") => if v == 4 && len_ok(&[16, 128]) { Ok(Ciph::Rc4) } else { Err(format!("CF /{}: /CFM /V2 with /Length {:?} under V {}", String::from_utf8_lossy(name), len, v)) },
         Some(b"AESV2") => if v == 4 && len_ok(&[16, 128]) { Ok(Ciph::AesV2) } else { Err(format!("CF /{}: /CFM /AESV2 with /Length {:?} under V {}", String::from_utf8_lossy(name), len, v)) },
         Some(b"AESV3") => if v == 5 && len_ok(&[32, 256]) { Ok(Ciph::AesV3) } else { Err(format!("CF /{}: /CFM /AESV3 with /Length {:?} under V {}", String::from_utf8_lossy(name), len, v)) },
+        // /CFM /None (also the default): "the application shall not decrypt data"; under the standard security handler,
+        // which has no decryption of its own for such data, independent readers (pdf.js, qpdf) leave it as it is
+        Some(b"None") | None => Ok(Ciph::Identity),
         Some(other) => Err(format!("CF /{} has /CFM /{}, which is not one of None, V2, AESV2, AESV3 (ISO 32000 table 25)", String::from_utf8_lossy(name), String::from_utf8_lossy(other))),
-        None => Err(format!("CF /{} has no /CFM (default /None: the security handler would decrypt itself)", String::from_utf8_lossy(name))),
     }
 }
 
